@@ -116,13 +116,23 @@ def c03(scn, obs):
 
 # ------------------------------------------------------------------ C12 / C02
 
+EVENT_HOOKS = ('on_start_trace', 'on_end_trace', 'on_start_prompt', 'on_end_prompt')
+
+
 def c12(scn, obs):
     bad = []
-    seq = [o for o in obs if o.get('k') == 'hook' and o['hook'] in ('on_initialize_run', 'on_start_run', 'on_end_run', 'on_finished')]
+    seq = [o for o in obs if o.get('k') == 'hook' and o['hook'] in ('on_initialize_run', 'on_start_run', 'on_end_run', 'on_finished') + EVENT_HOOKS]
     cur = None           # run number being initialised / run
     phase = 'none'       # none | init | started | ended | finished
     for o in seq:
         h = o['hook']
+        if h in EVENT_HOOKS:
+            # the run's in-process events come after start-run and before end-run
+            if phase != 'started':
+                bad.append((f'event-outside-run:{phase}', f'{h} (event of run {o.get("ev_run_no")}) delivered in phase {phase}, i.e. not between on_start_run and on_end_run'))
+            elif o.get('ev_run_no') is not None and o.get('ev_run_no') != cur:
+                bad.append(('event-of-other-run', f'{h} carries run {o.get("ev_run_no")} during run {cur}'))
+            continue
         if h == 'on_initialize_run':
             if phase in ('started', 'ended'):
                 bad.append((f'init-during-run', f'on_initialize_run (run {o["run_no"]}) delivered while run {cur} has not finished'))
@@ -203,9 +213,17 @@ def c02(scn, obs):
             elif exp != 'none' and exp not in last:
                 bad.append((f'run-info-exception-mismatch:{exp}', f'finished record carries {fin[-1]["exc"]}, expected {exp}'))
     # anything waiting for the run returns
-    for o in obs:
-        if o.get('k') == 'await_timeout':
-            bad.append((f'waiter-never-returns:{o["task"]}', f'task {o["task"]} waiting for the run never returned'))
+    outcome = scn.get('meta', {}).get('outcome')
+    abrupt = outcome in ('hard', 'terminate', 'kill')
+    hung = any(o.get('k') in ('await_timeout', 'scenario_timeout') for o in obs)
+    if hung:
+        if abrupt:
+            # one class, whatever else it drags along (stuck state, missing record)
+            return [(f'run-never-finishes:child-died-abruptly:{outcome}',
+                     f'the child process ended by {outcome} and the run never finished (waiters never return, state stays running)')]
+        for o in obs:
+            if o.get('k') == 'await_timeout':
+                bad.append((f'waiter-never-returns:{outcome or o["task"]}', f'task {o["task"]} waiting for the run never returned'))
     return bad
 
 
